@@ -105,7 +105,29 @@ func (s SessionStoreImpl[T]) Put(key string, value interface{}, options ...Sessi
 	}
 	return s.underlying.Set(context.Background(), s.db.getFullKey(s.prefixes, key), T(bytes), store.WithExpiration(opts.ttl))
 }
+
+// atomicSessionDatabase is an optional interface for a SessionDatabase whose back-end can perform the read-modify-write
+// operations itself, in a single atomic step. Such a back-end is typically shared by several node processes (clustering),
+// between which the in-process mutex of SessionStoreImpl offers no protection: SessionStoreImpl prefers these operations.
+type atomicSessionDatabase interface {
+	// getAndDelete returns the raw value stored for the (full) key and deletes the entry, atomically.
+	// It returns ErrNotFound if there is no entry.
+	getAndDelete(ctx context.Context, fullKey string) ([]byte, error)
+	// putIfAbsent stores the raw value for the (full) key unless an entry exists, atomically. It returns whether it stored the value.
+	putIfAbsent(ctx context.Context, fullKey string, value []byte, ttl time.Duration) (bool, error)
+}
+
 func (s SessionStoreImpl[T]) GetAndDelete(key string, target interface{}) error {
+	if atomicDB, ok := s.db.(atomicSessionDatabase); ok {
+		val, err := atomicDB.getAndDelete(context.Background(), s.db.getFullKey(s.prefixes, key))
+		if err != nil {
+			return err
+		}
+		if len(val) == 0 {
+			return ErrNotFound
+		}
+		return json.Unmarshal(val, target)
+	}
 	// Get and Delete must not interleave with another GetAndDelete for the same key: the entry may be burned only once.
 	s.mux.Lock()
 	defer s.mux.Unlock()
@@ -116,6 +138,20 @@ func (s SessionStoreImpl[T]) GetAndDelete(key string, target interface{}) error 
 }
 
 func (s SessionStoreImpl[T]) PutIfAbsent(key string, value interface{}, options ...SessionOption) (bool, error) {
+	if atomicDB, ok := s.db.(atomicSessionDatabase); ok {
+		opts := s.defaultOptions()
+		for _, opt := range options {
+			opt(&opts)
+		}
+		// see Put: a TTL <= 0 means "don't cache", which is left to the regular path below
+		if opts.ttl > 0 {
+			bytes, err := json.Marshal(value)
+			if err != nil {
+				return false, err
+			}
+			return atomicDB.putIfAbsent(context.Background(), s.db.getFullKey(s.prefixes, key), bytes, opts.ttl)
+		}
+	}
 	// the existence check and Put must not interleave with another PutIfAbsent for the same key.
 	s.mux.Lock()
 	defer s.mux.Unlock()
